@@ -1132,7 +1132,13 @@ func directiveSecRuleUpdateTargetByID(options *DirectiveOptions) error {
 			if err != nil {
 				return err
 			}
-			return updateTargetBySingleID(id, variables, options)
+			if length > 2 && options.WAF.Rules.FindByID(id) == nil {
+				// as with ranges, ids of a list that do not exist are skipped
+				continue
+			}
+			if err := updateTargetBySingleID(id, variables, options); err != nil {
+				return err
+			}
 		} else {
 			if idx == 0 {
 				return fmt.Errorf("SecRuleUpdateTargetById: invalid negative id: %s", idOrRange)
@@ -1147,16 +1153,22 @@ func directiveSecRuleUpdateTargetByID(options *DirectiveOptions) error {
 				return err
 			}
 			if start == end {
-				return updateTargetBySingleID(start, variables, options)
+				if err := updateTargetBySingleID(start, variables, options); err != nil {
+					return err
+				}
+				continue
 			}
 			if start > end {
 				return fmt.Errorf("invalid range: %s", idOrRange)
 			}
 
-			for _, rule := range options.WAF.Rules.GetRules() {
+			rules := options.WAF.Rules.GetRules()
+			for i := range rules {
+				// the rule stored in the group has to be updated, not a copy of it
+				rule := &rules[i]
 				if rule.ID_ >= start && rule.ID_ <= end {
 					rp := RuleParser{
-						rule: &rule,
+						rule: rule,
 						options: RuleOptions{
 							WAF: options.WAF,
 						},
@@ -1229,7 +1241,13 @@ func directiveSecRuleUpdateActionByID(options *DirectiveOptions) error {
 			if err != nil {
 				return err
 			}
-			return updateActionBySingleID(id, actions, options)
+			if idsOrRangesLen > 2 && options.WAF.Rules.FindByID(id) == nil {
+				// as with ranges, ids of a list that do not exist are skipped
+				continue
+			}
+			if err := updateActionBySingleID(id, actions, options); err != nil {
+				return err
+			}
 		} else {
 			if idx == 0 {
 				return fmt.Errorf("SecRuleUpdateActionById: invalid negative id: %s", idOrRange)
@@ -1244,7 +1262,10 @@ func directiveSecRuleUpdateActionByID(options *DirectiveOptions) error {
 				return err
 			}
 			if start == end {
-				return updateActionBySingleID(start, actions, options)
+				if err := updateActionBySingleID(start, actions, options); err != nil {
+					return err
+				}
+				continue
 			}
 			if start > end {
 				return fmt.Errorf("invalid range: %s", idOrRange)
@@ -1342,11 +1363,14 @@ func directiveSecRuleUpdateTargetByTag(options *DirectiveOptions) error {
 		return errors.New("syntax error: SecRuleUpdateTargetByTag tag \"VARIABLES\"")
 	}
 
-	for _, rule := range options.WAF.Rules.GetRules() {
+	rules := options.WAF.Rules.GetRules()
+	for i := range rules {
+		// the rule stored in the group has to be updated, not a copy of it
+		rule := &rules[i]
 		inputTag := strings.Trim(tagAndvars[0], "\"")
 		if utils.InSlice(inputTag, rule.Tags_) {
 			rp := RuleParser{
-				rule: &rule,
+				rule: rule,
 				options: RuleOptions{
 					WAF: options.WAF,
 				},
